@@ -24,7 +24,7 @@ The public API is in include/ipr/interface (abstract node classes), include/ipr/
 
 Deliverables, all inside {wt}/_seed/ (create the directory):
   1. patch.diff  -- `git -C {wt} diff` of your change to the library sources only (no test or _seed files in it).
-  2. demo.cxx    -- a small stand-alone program (main returns 0 = property held, non-zero = property violated, printing what it observed) that uses only the public headers; it must return non-zero WITH your change and 0 WITHOUT it (verify both by actually building and running it against the patched and the unpatched sources: `git stash` / `git stash pop`, or `git apply -R`).
+  2. demo.cxx    -- a small stand-alone program (main returns 0 = property held, non-zero = property violated, printing what it observed) that uses only the public headers; it must return non-zero WITH your change and 0 WITHOUT it (verify both by actually building and running it against the patched and the unpatched sources; to get the unpatched sources use `git diff > _seed/patch.diff; git apply -R _seed/patch.diff; ...; git apply _seed/patch.diff` -- NEVER use `git stash`: the stash is shared with other worktrees of this repository that other people are using concurrently).
   3. meta.json   -- {{"property": "{pid}", "summary": "<one sentence: what the change does>", "needs": "<what specific condition is needed for it to manifest>", "files": [...], "ran": ["<commands you ran and their outcome: build, 17 tests pass, demo fails with change, demo passes without>"]}}
 Leave the worktree with your change APPLIED at the end (uncommitted), with _build containing the passing test build. Do not commit anything.
 
